@@ -326,25 +326,11 @@ def run(ctx) -> None:
     ctx.extra["lock_order_edges"] = sorted(f"{a} -> {b}   [{w}]" for (a, b), w in edges.items())
 
     # ---------------------------------------------------------------- lock order: cycle detection
-    graph: dict[str, set[str]] = {}
-    for (a, b) in edges:
-        graph.setdefault(a, set()).add(b)
-    cycles = []
-    color: dict[str, int] = {}
+    from ..fixtures import FX_CYCLE, find_cycles
 
-    def dfs(u, stack):
-        color[u] = 1
-        for v in sorted(graph.get(u, ())):
-            if color.get(v, 0) == 1:
-                cyc = stack[stack.index(v) :] + [v] if v in stack else [u, v]
-                cycles.append(cyc)
-            elif color.get(v, 0) == 0:
-                dfs(v, stack + [v])
-        color[u] = 2
-
-    for u in sorted(graph):
-        if color.get(u, 0) == 0:
-            dfs(u, [u])
+    if not find_cycles(FX_CYCLE):
+        raise AnalysisError("positive fixture for C06/lock-order did not match: the cycle detector is broken")
+    cycles = find_cycles(set(edges))
     if cycles:
         for cyc in cycles:
             wit = [edges.get((cyc[i], cyc[i + 1]), "?") for i in range(len(cyc) - 1)]
